@@ -213,6 +213,7 @@ def solve(ctx, ob, tier):
     wit_all = [(n, d) for n, d, v in results if classify(d) == 'witness' and not any(w in d for w in ob.optional_witnesses)]
     wit_ok = [(n, d) for n, d, v in results if (n, d) in wit_all and v == 'FAILURE']
     res['witnesses'] = len(wit_all); res['witnesses_reached'] = len(wit_ok)
+    res['labels_reached'] = sorted(set(re.sub(r'^.*VF-WITNESS ', '', d) for n, d, v in results if classify(d) == 'witness' and v == 'FAILURE'))
     bad = [(n, d) for n, d in failed if classify(d) == 'prop']
     unw = [(n, d) for n, d in failed if classify(d) == 'unwind']
     ptr = [(n, d) for n, d in failed if classify(d) == 'ptrarith']
@@ -354,6 +355,9 @@ def run_property(pid, obligations, tier, meta):
             'property_id': pid, 'tier': tier, 'seed': int(os.environ.get('VERIF_SEED', '0') or 0), 'level': meta.get('level', 'proof'),
             'coverage': {
                 'obligations': n, 'discharged': len(passed),
+                'evaluations': n,
+                'distinct_nontrivial': len(set(r['id'] for r in passed if (meta.get('nontrivial_witness') is None or meta['nontrivial_witness'] in r.get('labels_reached', [])))),
+                'rule': meta.get('rule', 'one solver query per enumerated obligation; all are distinct by construction (distinct harness / shape / plan)'),
                 'checker_cmd': (results[0].get('cmd') if results else '') or 'cbmc',
                 'trusted_base': TRUSTED_BASE,
                 'explanation': meta.get('explanation', ''),
